@@ -29,3 +29,4 @@ def run(ctx):
     lib_py.facade_guard(ctx, py, "tables", "BaseTable.__getitem__", "index", "ll_table.get_row", upper="len(self)")
     lib_py.ll_positional(ctx, py, P, only=ps)
     lib_py.unused_params(ctx, py, mods=("tables",), only=ps)
+    lib_mem.c_lints(ctx, ctx.program(), scopes.lib_scope("C13"))
